@@ -1,6 +1,7 @@
 package main
 
 import (
+	"bufio"
 	"bytes"
 	"fmt"
 	"io"
@@ -108,6 +109,15 @@ func sourceVaried(in []byte, salt uint64) io.Reader {
 	}
 	mode := (h >> 29) % 8
 	if mode < 4 {
+		// the standard library's concrete types a reader meets in production
+		switch (h >> 40) % 6 {
+		case 0:
+			return bytes.NewBuffer(append([]byte(nil), in...))
+		case 1:
+			return strings.NewReader(string(in))
+		case 2:
+			return bufio.NewReaderSize(struct{ io.Reader }{bytes.NewReader(in)}, 16+int(h>>50)%300)
+		}
 		return bytes.NewReader(in)
 	}
 	src := mon.NewSource(in)
@@ -163,4 +173,37 @@ func noteCarry(c *ev.Ctx, family string, out []byte) {
 			return
 		}
 	}
+}
+
+// callerWrite passes p to w the way a caller with a reused buffer does (for odd salts): the
+// bytes are handed over in a buffer of the caller's own that is overwritten as soon as Write
+// has returned.  io.Writer forbids implementations to retain p; a writer that keeps a reference
+// instead of a copy compresses the overwritten bytes.
+func callerWrite(w io.Writer, p []byte, salt uint64) (int, error) {
+	if salt%2 == 0 || len(p) == 0 {
+		return w.Write(p)
+	}
+	buf := make([]byte, len(p), len(p)+int(salt>>1)%9)
+	copy(buf, p)
+	n, err := w.Write(buf)
+	for i := range buf {
+		buf[i] = 0xA5
+	}
+	return n, err
+}
+
+// sinkKinds: what a writer is connected to.  0: the recording sink itself; 1: a *bufio.Writer
+// in front of it (flushed by the caller after Close, as gxz does); 2: a *bytes.Buffer whose
+// content is moved to the recording sink afterwards; 3: an *os.File-like two-step sink is not
+// modelled.  finish must be called after the last call on the writer.
+func sinkKind(kind uint64, sink *mon.Sink) (w io.Writer, finish func()) {
+	switch kind % 4 {
+	case 1:
+		bw := bufio.NewWriterSize(sink, 16+int(kind>>2)%5000)
+		return bw, func() { bw.Flush() }
+	case 2:
+		var b bytes.Buffer
+		return &b, func() { sink.Buf = append(sink.Buf, b.Bytes()...); b.Reset() }
+	}
+	return sink, func() {}
 }
